@@ -202,6 +202,8 @@ Clauses(S, P, hasPrev, TauSet) ==   \* S = this solve's observation, P = previou
               THEN {<<"C02", "objective-is-not-the-smallest-metric", tauVal - minMetric>>} ELSE {}
       c02h == IF primRange /\ doCert /\ tauVal > certConst + Tol(tauVal, RowErr(NK) + LmiErr(NK) + 2)
               THEN {<<"C02", "primal-exceeds-dual", tauVal - certConst>>} ELSE {}
+      c02j == {<<"C02", "object-built-after-a-new-leaf-point:" \o S.postleaf[k].out, k>> :
+                  k \in {j \in 1..Len(S.postleaf) : S.postleaf[j].out # "ok"}}
       c02i == IF solved /\ S.Gasym > 1 THEN {<<"C02", "gram-not-symmetric", S.Gasym>>} ELSE {}
       \* ---------------- C14: dimension reduction keeps the guarantee
       ph == S.phases
@@ -315,7 +317,7 @@ Clauses(S, P, hasPrev, TauSet) ==   \* S = this solve's observation, P = previou
       info == IF doCert THEN {<<"INFO", "max-identity-error", maxKeyErr>>} ELSE {}
   IN info \cup cXa \cup c05a \cup c05b \cup c05c \cup c05d \cup c05e
      \cup c01a \cup c01b \cup c01c \cup c01d \cup c01e \cup c01f \cup c01g
-     \cup c02a \cup c02b \cup c02c \cup c02d \cup c02e \cup c02f \cup c02g \cup c02h \cup c02i
+     \cup c02a \cup c02b \cup c02c \cup c02d \cup c02e \cup c02f \cup c02g \cup c02h \cup c02i \cup c02j
      \cup c14a \cup c14b \cup c14c \cup c14d \cup c14e
      \cup c13a \cup c13b \cup c13c \cup c13d
      \cup c11a \cup c11b \cup c11c \cup c11d \cup c11e \cup c11f \cup c11g \cup c11x
